@@ -14,7 +14,9 @@ import (
 	"verifharness/bm"
 	"verifharness/hx"
 
+	"github.com/evstack/ev-node/pkg/signer"
 	"github.com/evstack/ev-node/types"
+	"github.com/libp2p/go-libp2p/core/crypto"
 )
 
 type World struct {
@@ -34,6 +36,9 @@ type World struct {
 	// right after it
 	lostH, lostD map[string]bool
 	refused int
+	sigHook func() // armed by `during=… at=sign`: runs at the next signer call
+	// chain height when the running submission body read its pending list, if a block was committed while it ran (else 0)
+	readHeight uint64
 	// both real loop goroutines came to rest (nothing pending) since the last committed block, after an outage script:
 	// a refusal now is a refusal after the DA layer has accepted everything
 	realQuietH, realQuietD bool
@@ -147,7 +152,8 @@ func Run(c *hx.Ctx) {
 			}
 			ih, _ := o.U64("ih")
 			maxp, _ := o.U64("maxp")
-			w.opt = bm.Options{InitialHeight: ih, GenesisTime: time.Unix(0, o.I64("gt")), MaxPending: maxp, Aggregator: true}
+			w.opt = bm.Options{InitialHeight: ih, GenesisTime: time.Unix(0, o.I64("gt")), MaxPending: maxp, Aggregator: true,
+				WrapSigner: func(sg signer.Signer) signer.Signer { return &hookSigner{Signer: sg, w: w} }}
 			w.da = hx.NewDA()
 			w.ts = o.I64("gt")
 			w.lastInc, w.lastHwm, w.lastDwm, w.crashed, w.refused, w.okData = 0, 0, 0, false, 0, 0
@@ -162,32 +168,8 @@ func Run(c *hx.Ctx) {
 				w.checkIncBounds("start")
 			}
 		case "produce":
-			e := w.env
-			w.ts += 1_000_000_000
-			e.Seq.Next = &hx.SeqResp{Txs: o.List("txs"), Ts: time.Unix(0, w.ts)}
-			hb := e.Height()
-			w.from = e.DS.NumWrites()
-			calls := e.Seq.Calls
-			execs := len(e.Exec.Calls)
-			err := e.M.VerifPublishBlock(context.Background())
-			cls := "nil"
-			if err != nil {
-				cls = "err"
-			}
-			refused := err == nil && e.Height() == hb && e.Seq.Calls == calls && len(e.Exec.Calls) == execs && e.DS.NumWrites() == w.from
-			if e.Height() != hb {
-				w.okData = 0
-				w.realQuietH, w.realQuietD = false, false
-			}
-			if refused {
-				cls = "refused"
-				w.refused++
-				if w.realQuietH && w.realQuietD {
-					nh, nd := e.M.VerifPendingCounts()
-					c.Report("C08/refuses/after-outage-real-loop-came-to-rest", fmt.Sprintf("the unmodified header and data submission loops ran until nothing was pending (the DA layer accepted after the scripted outage), no block was committed since, yet production is refused: limit %d, counters %d/%d", e.Options.MaxPending, nh, nd))
-				}
-				w.checkRefusal()
-			}
+			w.from = w.env.DS.NumWrites()
+			cls := w.doProduce(o.List("txs"))
 			c.Emit("produced out=%s %s", cls, w.state())
 			w.checkCounters("produce")
 		case "subh", "subd":
@@ -198,12 +180,35 @@ func Run(c *hx.Ctx) {
 			}
 			n0 := len(w.da.Submits)
 			w.from = e.DS.NumWrites()
+			// `during=produce:<txs> at=sign|submit`: the aggregation loop commits a block WHILE this submission body
+			// runs - at its first signer call (data only: after the pending list was read, before anything is signed) or
+			// at its first Submit call (the blobs are in flight). If that point is never reached the block is produced
+			// right after the body.
+			during, dcls, dat := o.Has("during"), "", "after"
+			if during {
+				txs, _ := hx.UnHexList(strings.TrimPrefix(o.Str("during"), "produce:"))
+				w.readHeight = 0
+				fire := func() { w.readHeight = e.Height(); dcls = w.doProduce(txs) }
+				if o.Str("at") == "submit" {
+					w.da.OnSubmit = func() { w.da.OnSubmit = nil; dat = "submit"; fire() }
+				} else {
+					w.sigHook = func() { dat = "sign"; fire() }
+				}
+			}
 			var ran bool
 			var err error
 			if o.Verb == "subh" {
 				ran, err = e.M.VerifSubmitHeadersOnce(context.Background())
 			} else {
 				ran, err = e.M.VerifSubmitDataOnce(context.Background())
+			}
+			if during {
+				w.da.OnSubmit, w.sigHook = nil, nil
+				if dat == "after" {
+					txs, _ := hx.UnHexList(strings.TrimPrefix(o.Str("during"), "produce:"))
+					w.readHeight = e.Height()
+					dcls = w.doProduce(txs)
+				}
 			}
 			out := "done"
 			switch {
@@ -232,7 +237,11 @@ func Run(c *hx.Ctx) {
 			if out == "incomplete" && len(w.da.Submits[n0:]) > 0 && w.da.Submits[len(w.da.Submits)-1].Answer == "canceled" {
 				out = "done" // a cancelled submission returns nil
 			}
-			c.Emit("%s out=%s calls=%s %s w=%s", o.Verb, out, cs, w.state(), bm.DescribeWrites(e.DS, w.from))
+			if during {
+				c.Emit("%s out=%s calls=%s %s w=%s during=%s@%s", o.Verb, out, cs, w.state(), bm.DescribeWrites(e.DS, w.from), dcls, dat)
+			} else {
+				c.Emit("%s out=%s calls=%s %s w=%s", o.Verb, out, cs, w.state(), bm.DescribeWrites(e.DS, w.from))
+			}
 			for _, sb := range w.da.Submits[n0:] {
 				// the DA layer took the blobs but its acknowledgement never reached the node: the node is right to go on
 				// counting them as waiting until a later tick gets them acknowledged
@@ -257,6 +266,7 @@ func Run(c *hx.Ctx) {
 				w.lostAckH = false
 			}
 			w.monitorSubmit(o.Verb, n0, left)
+			w.readHeight = 0
 		case "subhreal", "subdreal":
 			// the UNMODIFIED HeaderSubmissionLoop / DataSubmissionLoop goroutine (1 ms ticker): start it, wait until
 			// nothing of its kind is pending any more, stop it. The scripted answers are consumed tick after tick; once
@@ -434,6 +444,52 @@ func (w *World) runRealIncluder() {
 	}
 }
 
+// doProduce: one block production step with the given batch (the op `produce`, also run inside a submission body)
+func (w *World) doProduce(txs [][]byte) string {
+	c, e := w.c, w.env
+	w.ts += 1_000_000_000
+	e.Seq.Next = &hx.SeqResp{Txs: txs, Ts: time.Unix(0, w.ts)}
+	hb := e.Height()
+	nw := e.DS.NumWrites()
+	calls := e.Seq.Calls
+	execs := len(e.Exec.Calls)
+	err := e.M.VerifPublishBlock(context.Background())
+	cls := "nil"
+	if err != nil {
+		cls = "err"
+	}
+	refused := err == nil && e.Height() == hb && e.Seq.Calls == calls && len(e.Exec.Calls) == execs && e.DS.NumWrites() == nw
+	if e.Height() != hb {
+		w.okData = 0
+		w.realQuietH, w.realQuietD = false, false
+	}
+	if refused {
+		cls = "refused"
+		w.refused++
+		if w.realQuietH && w.realQuietD {
+			nh, nd := e.M.VerifPendingCounts()
+			c.Report("C08/refuses/after-outage-real-loop-came-to-rest", fmt.Sprintf("the unmodified header and data submission loops ran until nothing was pending (the DA layer accepted after the scripted outage), no block was committed since, yet production is refused: limit %d, counters %d/%d", e.Options.MaxPending, nh, nd))
+		}
+		w.checkRefusal()
+	}
+	return cls
+}
+
+// hookSigner: the node's signer; its first call after `sigHook` was armed runs the hook (once) before answering
+type hookSigner struct {
+	signer.Signer
+	w *World
+}
+
+func (h *hookSigner) fire() {
+	if f := h.w.sigHook; f != nil {
+		h.w.sigHook = nil
+		f()
+	}
+}
+func (h *hookSigner) Sign(m []byte) ([]byte, error)     { h.fire(); return h.Signer.Sign(m) }
+func (h *hookSigner) GetPublic() (crypto.PubKey, error) { h.fire(); return h.Signer.GetPublic() }
+
 // the unmodified submission loop goroutine of one kind: run it until nothing of that kind is pending (bounded), stop it
 func (w *World) runRealSubmitter(isData bool) bool {
 	e := w.env
@@ -607,14 +663,20 @@ func (w *World) monitorSubmit(verb string, n0, scriptLeft int) {
 			}
 		}
 	}
+	// the liveness clauses below are about the pending range the body READ: if a block was committed while it ran
+	// (`during=`), that is the range up to the chain height at its beginning
+	href := e.Height()
+	if w.readHeight != 0 {
+		href = w.readHeight
+	}
 	// retry until accepted: when the DA layer finally accepts everything the watermark reaches the chain height
 	if scriptLeft == 0 && len(w.da.Submits) > n0 && w.da.Submits[len(w.da.Submits)-1].Answer == "ok" && len(w.da.Submits)-n0 < 30 {
-		if verb == "subh" && hm != e.Height() {
-			c.Report("C06/retry/headers-left-behind", fmt.Sprintf("watermark %d height %d after an accepting DA", hm, e.Height()))
+		if verb == "subh" && hm != href {
+			c.Report("C06/retry/headers-left-behind", fmt.Sprintf("watermark %d height %d after an accepting DA", hm, href))
 		}
 		if verb == "subd" {
 			last := uint64(0)
-			for k := ih; k <= e.Height(); k++ {
+			for k := ih; k <= href; k++ {
 				if _, d, err := e.Store.GetBlockData(ctx, k); err == nil && len(d.Txs) > 0 {
 					last = k
 				}
@@ -625,23 +687,23 @@ func (w *World) monitorSubmit(verb string, n0, scriptLeft int) {
 		}
 	}
 	// nothing to submit and an accepting DA layer: when every pending block is empty the data tick passes over them
-	if verb == "subd" && scriptLeft == 0 && len(w.da.Submits) == n0 && dm < e.Height() {
+	if verb == "subd" && scriptLeft == 0 && len(w.da.Submits) == n0 && dm < href {
 		allEmpty := true
-		for k := dm + 1; k <= e.Height(); k++ {
+		for k := dm + 1; k <= href; k++ {
 			if _, d, err := e.Store.GetBlockData(ctx, k); err != nil || len(d.Txs) > 0 {
 				allEmpty = false
 			}
 		}
 		if allEmpty {
-			c.Report("C06/retry/empty-blocks-left-behind", fmt.Sprintf("data watermark %d height %d: every pending block is empty, the tick submitted nothing and left them pending", dm, e.Height()))
+			c.Report("C06/retry/empty-blocks-left-behind", fmt.Sprintf("data watermark %d height %d: every pending block is empty, the tick submitted nothing and left them pending", dm, href))
 		}
 	}
 	// nothing is ever submitted although blocks are committed
-	if verb == "subh" && len(w.da.Submits) == n0 && e.Height() >= ih && hm < e.Height() {
+	if verb == "subh" && len(w.da.Submits) == n0 && href >= ih && hm < href {
 		if ih > 1 {
-			c.Report("C06/never-submitted/initial-height-above-1", fmt.Sprintf("height %d watermark %d: the pending range starts below the initial height %d", e.Height(), hm, ih))
+			c.Report("C06/never-submitted/initial-height-above-1", fmt.Sprintf("height %d watermark %d: the pending range starts below the initial height %d", href, hm, ih))
 		} else {
-			c.Report("C06/never-submitted/other", fmt.Sprintf("height %d watermark %d", e.Height(), hm))
+			c.Report("C06/never-submitted/other", fmt.Sprintf("height %d watermark %d", href, hm))
 		}
 	}
 }
